@@ -269,23 +269,40 @@ def handoff(check, prog):
         check.require(ok, 'E5-handoff-formula', 'Tmatrix._parse_args angles.%s' % k,
                       'detector angles converted to degrees, column %d' % col, loc,
                       fail_detail='%s is %s' % (k, canon.show(t)))
-    # can_handle <-> _parse_args branches
+    # can_handle <-> _parse_args, as a truth table over every scatterer class of the
+    # package (and a non-scatterer): the class is accepted iff _parse_args does not
+    # refuse it.  Independent of how the isinstance tests are spelled or ordered.
+    from hpstatic.logic import eval3, select
+    from .common import isinstance_value
+    BASE = 'holopy.scattering.scatterer.scatterer.Scatterer'
+    qc = TMATRIX + '.can_handle'
+    fdc = prog.func(qc)
     it = Interp(prog, max_depth=2)
-    r = it.analyze(TMATRIX + '.can_handle')
-    accepted = sorted({x[2][1][1] for x in subterms(r.ret)
-                       if x[0] == 'call' and x[1] == 'isinstance'
-                       and x[2][1][0] == 'classref'})
-    src = ast.unparse(fd)
-    branches = sorted({prog.resolve_name('holopy.scattering.theory.tmatrix', n.args[1].id)[1]
-                       for n in ast.walk(fd)
-                       if isinstance(n, ast.Call) and isinstance(n.func, ast.Name)
-                       and n.func.id == 'isinstance' and isinstance(n.args[1], ast.Name)})
-    check.require(accepted == branches and len(accepted) == 3,
+    r = it.analyze(qc)
+    subj_c = sym(fdc.args.args[1].arg)
+    itp = Interp(prog, max_depth=1)
+    rp = itp.analyze(q)
+    subj_p = sym(fd.args.args[1].arg)
+    vp = rp.ret_with_raises
+    accepted, disagree = [], []
+    classes = sorted(prog.subclasses(BASE)) + [None]
+    for C in classes:
+        acc = eval3(r.ret, lambda t, C=C: isinstance_value(prog, t, subj_c, C))
+        leaf = select(vp, lambda t, C=C: isinstance_value(prog, t, subj_p, C))
+        refused = None if leaf is None else (leaf[0] == 'raise')
+        name = C.rpartition('.')[2] if C else 'a non-scatterer'
+        if acc:
+            accepted.append(name)
+        if acc is None or refused is None or acc == refused:
+            disagree.append('%s: can_handle says %s, _parse_args %s' % (
+                name, acc, {None: 'is undecided', True: 'refuses it',
+                            False: 'has a branch for it'}[refused]))
+    check.floor('scatterer classes in the Tmatrix acceptance table', len(classes), 15)
+    check.require(not disagree and len(accepted) >= 3,
                   'E6-can_handle-agrees-with-parse_args', 'Tmatrix.can_handle',
-                  'accepted classes %s all have a branch' % [a.rpartition('.')[2]
-                                                             for a in accepted], loc,
-                  fail_detail='can_handle accepts %s, _parse_args handles %s' % (
-                      accepted, branches))
+                  'accepted classes %s all have a branch, every other class is '
+                  'refused by both (%d classes)' % (accepted, len(classes)), loc,
+                  fail_detail='; '.join(disagree[:4]))
     # _run_tmat packs [[s11, s12], [s21, s22]] transposed -> (N, 2, 2)
     q2 = TMATRIX + '._run_tmat'
     it = Interp(prog, max_depth=2)
@@ -293,9 +310,16 @@ def handoff(check, prog):
     t = r.ret
     fd2 = prog.func(q2)
     ok = False
+    # full axis reversal, in any of its spellings
+    arr = None
     if t[0] == 'call' and isinstance(t[1], tuple) and t[1][0] == 'attr' and \
-            t[1][2] == 'transpose' and not t[2]:
+            t[1][2] == 'transpose' and not t[2] and not t[3]:
         arr = t[1][1]
+    elif t[0] == 'attr' and t[2] == 'T':
+        arr = t[1]
+    elif t[0] == 'call' and t[1] == 'numpy.transpose' and len(t[2]) == 1 and not t[3]:
+        arr = t[2][0]
+    if arr is not None:
         if arr[0] == 'call' and arr[1] == 'numpy.array' and arr[2] and \
                 arr[2][0][0] == 'list' and len(arr[2][0][1]) == 2:
             rows = arr[2][0][1]
